@@ -329,6 +329,7 @@ func (d *driver) teardown() {
 	for _, m := range d.env.mr {
 		m.Close()
 	}
+	d.dropStable(d.env)
 	d.env = nil
 }
 
@@ -959,6 +960,7 @@ func (d *driver) finishCheck(c *checkRun) {
 		d.describe(c, f, ev)
 	}
 	d.rec.emit(ev)
+	d.checkStable(c)
 }
 
 func firstLines(s string, n int) string {
